@@ -106,6 +106,13 @@ B('C17', 'formula-checked-rem', 'mithril-common/src/entities/signed_entity_confi
     }
 }""", 'the rounding written with checked_rem (the refactoring of seed C17-1) with the CORRECT fall-back for a zero step')
 
+B('C02', 'redundant-self-competition-guard-removed', 'mithril-stm/src/proof_system/concatenation/clerk.rs',
+  """                    if previous_sig == sig_reg {
+                        // A repeated copy of the signature already holding this index is not a competitor
+                        continue;
+                    }
+""", '', 'since F15 the contest runs over one merged entry per signature: the guard added for F2 can no longer be met (it was a mutation before the fix)')
+
 # ---------------------------------------------------------------- behaviour-preserving refactorings written by independent sub-agents
 # (each agent was given only the property text and a scratch worktree; every patch compiles and passes the crate's existing tests)
 BP('C01', 'rf-c01-1', 'rf-c01-1.diff',
@@ -117,7 +124,7 @@ BP('C01', 'rf-c01-3', 'rf-c01-3.diff',
 BP('C01', 'rf-c01-4', 'rf-c01-4.diff',
    "independent refactoring: MerkleTreeBatchCommitment::verify_leaves_membership_from_batch_path (the check that every (verification key, stake) leaf of an aggregate signature is committed by the aggregate key). (a) The 'indices must be ordered' check `sorted_copy != proof.indices` (clone + sort_unstable + compare) is replaced ")
 BP('C02', 'rf-c02-1', 'rf-c02-1.diff',
-   'independent refactoring: ConcatenationClerk::select_valid_signatures_for_k_indices (the dedup/selection step of aggregation) is split into two private phases plus a predicate: is_valid_signature (the per-signature BLS+lottery verification that decides whether a signature is skipped), assign_indices_to_valid_signatures (phas')
+   'the refactoring of an independent sub-agent (selection routine split into is_valid_signature / assign / collect helpers, verification as an iterator filter, match instead of if-let, entry API) re-applied by hand to the selection routine as rewritten by fix F15 (the delivered patch, kept as rf-c02-1.orig.diff.txt, no longer applies); mithril-stm tests and the F15 probe pass with it')
 BP('C02', 'rf-c02-2', 'rf-c02-2.diff',
    'independent refactoring: ConcatenationProof::aggregate_signatures (the concatenation aggregation entry point reached from Clerk::aggregate_signatures_with_type) is reshaped: the iterator chain `sigs.iter().map(|sig| lookup(..).map(|reg_party| ..)).collect::<Result<Vec<_>,_>>()?` that pairs every single signature with its re')
 BP('C02', 'rf-c02-3', 'rf-c02-3.diff',
